@@ -39,7 +39,7 @@ VARIABLES
              \*        | "fulfilling" | "fattributed"
   pos,       \* number of hops that have peeled the packet so far
   tainted,   \* the packet now in flight was modified after the previous hop / the sender made it
-  fail,      \* [k, code] of the failure travelling back (k = 0: none)
+  fail,      \* [k, code, dlen, head] of the failure travelling back (k = 0: none)
   wrapped,   \* lowest hop index that has processed the failure / fulfil on its way back
   holds      \* holds[j] = hold time reported by hop j (-1 = none yet)
 
@@ -105,9 +105,10 @@ WellFormed(r) ==
 Unblinded(r) == \A i \in 1..Len(r) : ~IsBlindedKind(r[i])
 
 -----------------------------------------------------------------------------
+NoFail == [k |-> 0, code |-> 0, dlen |-> 0, head |-> <<>>]
 Init ==
   /\ route = <<>> /\ phase = "idle" /\ pos = 0 /\ tainted = FALSE
-  /\ fail = [k |-> 0, code |-> 0] /\ wrapped = 0 /\ holds = <<>>
+  /\ fail = NoFail /\ wrapped = 0 /\ holds = <<>>
 
 (* The sender is handed route r.  If r fits it must produce a packet (of    *)
 (* the fixed size).  If it does not fit nothing is required of `ok`: a      *)
@@ -163,19 +164,52 @@ Peel(i, res) ==
 (* hop that produced it" is ambiguous.  Routes with blinded hops are        *)
 (* excluded as well (failures inside a blinded path are deliberately        *)
 (* anonymised).                                                             *)
+(*                                                                         *)
+(* A failure message is <<code, data>>.  Of the data the specification      *)
+(* sees its length `dlen` and its first bytes `head` (at most HeadLen of    *)
+(* them): BOLT 4 puts the fixed-size fields of every failure message and    *)
+(* the length of the channel_update of an UPDATE message there.             *)
 BadOnion(code) == code >= 32768
 IsPerm(code) == (code \div 16384) % 2 = 1
+NodeBit(code) == (code \div 8192) % 2 = 1
+UpdateBit(code) == (code \div 4096) % 2 = 1
+HeadLen == 12
 \* codes only a recipient sends and for which the sender blames nobody on the path
 RecipientCodes == {16384 + 15, 18, 19, 23}
 
+(* BOLT 4, "Failure Messages": the UPDATE messages are                      *)
+(*   temporary_channel_failure (UPDATE|7), expiry_too_soon (UPDATE|14):     *)
+(*                                 [u16:len][len*byte:channel_update]       *)
+(*   amount_below_minimum (UPDATE|11), fee_insufficient (UPDATE|12):        *)
+(*                  [u64:htlc_msat][u16:len][len*byte:channel_update]       *)
+(*   incorrect_cltv_expiry (UPDATE|13):                                     *)
+(*                [u32:cltv_expiry][u16:len][len*byte:channel_update]       *)
+(*   channel_disabled (UPDATE|20):                                          *)
+(*             [u16:disabled_flags][u16:len][len*byte:channel_update]       *)
+(* FixedLen = number of bytes before the u16 length; -1 for a code that     *)
+(* BOLT 4 does not define (its layout is unknown).                          *)
+FixedLen(code) ==
+  CASE code \in {4096 + 7, 4096 + 14} -> 0
+    [] code \in {4096 + 11, 4096 + 12} -> 8
+    [] code = 4096 + 13 -> 4
+    [] code = 4096 + 20 -> 2
+    [] OTHER -> -1
+\* the data of UPDATE message `code` is exactly fixed fields + length + that many bytes
+WellFormedUpdate(code, dlen, head) ==
+  LET d == FixedLen(code) IN
+  /\ d >= 0
+  /\ dlen >= d + 2 /\ Len(head) >= d + 2
+  /\ dlen = d + 2 + head[d + 1] * 256 + head[d + 2]
+
 (* Hop k, which has seen the packet, gives up and originates a failure.     *)
-FailAt(k, code, hold) ==
+FailAt(k, code, hold, dlen, head) ==
   /\ \/ phase = "fwd" /\ k = pos /\ k >= 1 /\ ~tainted
      \/ phase = "received" /\ k = N
   /\ Unblinded(route)
   /\ code >= 0 /\ ~BadOnion(code)
   /\ hold >= 0
-  /\ fail' = [k |-> k, code |-> code]
+  /\ dlen >= 0 /\ Len(head) <= HeadLen /\ Len(head) <= dlen
+  /\ fail' = [k |-> k, code |-> code, dlen |-> dlen, head |-> head]
   /\ wrapped' = k
   /\ holds' = [holds EXCEPT ![k] = hold]
   /\ phase' = "failing"
@@ -196,21 +230,53 @@ HoldTimesOK(ht, upto) ==
   /\ Len(ht) = Min(upto, MaxAttrHops)
   /\ \A j \in 1..Len(ht) : ht[j] = holds[j]
 
-(* What the sender decodes: a.code, a.hold_times, and the blame it assigns  *)
-(* (a node, a channel, both or -- for recipient errors -- nothing).         *)
+(* What the sender must CONCLUDE from a failure of hop k (BOLT 4,           *)
+(* "Receiving Failure Codes", and the documentation of                      *)
+(* Event::PaymentPathFailed / NetworkUpdate), as a function of the hop      *)
+(* position, the class bits of the code and -- for UPDATE -- the data:      *)
+(*   "node"      NODE bit, forwarding hop: the erring node is removed from  *)
+(*               consideration, permanently iff PERM is set;                *)
+(*   "chan_perm" PERM without NODE from a forwarding hop: the channel       *)
+(*               outgoing from the erring node (channel k+1) is eliminated  *)
+(*               for good;                                                  *)
+(*   "chan_temp" UPDATE without PERM/NODE from a forwarding hop with a      *)
+(*               well-formed message: that same channel, temporarily;       *)
+(*   "any"       everything BOLT 4 leaves open (final hop, malformed or     *)
+(*               unknown UPDATE data, codes without class bits): the blame  *)
+(*               must only stay with hop k (node k or an adjacent channel). *)
+BlameClass(k, code, dlen, head) ==
+  IF k = N THEN "any"
+  ELSE IF NodeBit(code) THEN "node"
+  ELSE IF IsPerm(code) THEN "chan_perm"
+  ELSE IF UpdateBit(code) /\ WellFormedUpdate(code, dlen, head) THEN "chan_temp"
+  ELSE "any"
+
+(* What the sender decodes: a.code, a.hold_times, and the blame it assigns: *)
+(* a network update (nu_kind "node": nu_node, "channel": nu_chan, with      *)
+(* nu_perm = is_permanent; or "none"), the channel to avoid when retrying   *)
+(* (has_scid, chan) and whether the payment as a whole failed (perm).       *)
 AttrOK(a) ==
-  LET k == fail.k IN
+  LET k == fail.k
+      cls == BlameClass(k, fail.code, fail.dlen, fail.head) IN
   /\ a.code = fail.code
   /\ ~a.blinded
   /\ HoldTimesOK(a.hold_times, k)
+  /\ a.nu_kind \in {"none", "node", "channel"}
   /\ a.nu_kind = "node" => a.nu_node = k
   /\ a.nu_kind = "channel" => TouchesHop(a.nu_chan, k)
   /\ a.has_scid => TouchesHop(a.chan, k)
   /\ \/ a.nu_kind \in {"node", "channel"}
      \/ a.has_scid
      \/ k = N /\ fail.code \in RecipientCodes
-  \* only a permanent failure of the recipient may end the payment
-  /\ a.perm => (k = N /\ IsPerm(fail.code))
+  /\ cls = "node" => (a.nu_kind = "node" /\ a.has_scid)
+  \* whoever removes a node because of a NODE failure does so for good iff PERM is set
+  /\ (NodeBit(fail.code) /\ a.nu_kind = "node") => a.nu_perm = IsPerm(fail.code)
+  /\ cls \in {"chan_perm", "chan_temp"} =>
+       /\ a.nu_kind = "channel" /\ a.nu_chan = k + 1
+       /\ a.nu_perm = (cls = "chan_perm")
+       /\ a.has_scid /\ a.chan = k + 1
+  \* a failure of the recipient ends the payment iff it is permanent; no other failure does
+  /\ a.perm = (k = N /\ IsPerm(fail.code))
 
 Attribute(a) ==
   /\ phase = "failing" /\ wrapped = 1
@@ -218,7 +284,7 @@ Attribute(a) ==
   /\ phase' = "attributed"
   /\ UNCHANGED <<route, pos, tainted, fail, wrapped, holds>>
 
------------------------------------------------------------------------------
+-----
 (* Fulfil attribution data: created by the recipient, extended by every hop *)
 (* on the way back, decoded by the sender into per-hop hold times.          *)
 FulfillAt(k, hold) ==
